@@ -6,7 +6,7 @@ import swbase
 from swbase import AFTER_PREFIXES, model_line_after, agree_after
 
 ID = "C06"
-PROPS = ["C06", "C06Chain"]
+PROPS = ["C06", "C06Chain", "C01Lockstep", "C06Check"]
 EXEC = ("pl", "cv", "sws")
 RULE = ("pipelines of 2..6 requests (GET/POST/HEAD, bodies read or not) answered by separate threads in permuted order with every "
         "way of finishing: respond, drop unanswered, panicking handler (unwinding drops the request), raw writer (flushed / "
